@@ -9,7 +9,7 @@ with tempfile.TemporaryDirectory() as d:
     x = os.path.join(d, "r.xml")
     env = dict(os.environ); env.pop("NFCPY_NFCPY_VERIF", None); env.pop("PYTHONPATH", None)
     env["PYTHONPATH"] = os.path.join(repo, "src")
-    subprocess.run(["/venv/bin/python", "-m", "pytest", "-q", "-p", "no:cacheprovider", "--timeout=900",
+    subprocess.run(["/venv/bin/python", "-m", "pytest", "-q", "-p", "no:cacheprovider", "--timeout=" + os.environ.get("BASELINE_TIMEOUT", "900"),
                     "--continue-on-collection-errors", "--junitxml=" + x], cwd=repo, env=env,
                    stdout=subprocess.DEVNULL, stderr=subprocess.DEVNULL)
     ok = set()
